@@ -257,6 +257,65 @@ theorem C12_source_baseStubs_literals :
 
 end SourceTieD4
 
+/-! ### Capstones: (bridge) + (property) composed - the TRANSLATED raster code itself is pixel-exact against `Spec.rasterDark`. -/
+section Capstone
+open QR.Gen.Code QR.SourceTieD4
+
+/-- **capstone, `image/pure.py:PyPNGImage.rows_iter` + `border_rows_iter`, `image/base.py:BaseImage.__init__` (`pixel_size`)**
+    (all translated: `pypng_rows`, `pixel_size`): for every `n × n` matrix, border and box size ≥ 1 the rows handed to the PNG
+    writer are a `pixel_size × pixel_size` square of bits, `pixel_size = (n + 2·border)·box`, and pixel (x, y) is black (0) iff
+    the framed symbol is dark at module `(y / box, x / box)` (`Spec.rasterDark`) - pixel-exact.
+    From `C12_source_pypngRows_src`, `C12_source_pixelSize_src`, `C12_pure`, `C12_size`. -/
+theorem C12_source_capstone_pypng_rows (M : Mods) (n border box : Nat) (hlen : M.length = n)
+    (hrow : ∀ row ∈ M, row.length = n) (hb : 1 ≤ box) :
+    (pypng_rows M n border box).length = pixel_size border n box ∧
+    (∀ row ∈ pypng_rows M n border box, row.length = pixel_size border n box) ∧
+    (∀ row ∈ pypng_rows M n border box, ∀ v ∈ row, v = 0 ∨ v = 1) ∧
+    pixel_size border n box = (n + 2 * border) * box ∧
+    ∀ x y, x < pixel_size border n box → y < pixel_size border n box →
+      (((pypng_rows M n border box).getD y []).getD x 1 = 0 ↔ Spec.rasterDark M n border box x y = true) := by
+  have h := C12_pure M n border box hlen hrow hb
+  have hs := (C12_size M n border box hlen hrow hb).1
+  rw [C12_source_pypngRows_src, C12_source_pixelSize_src] at h
+  rw [C12_source_pixelSize_src] at hs
+  exact ⟨h.1, h.2.1, h.2.2.1, hs, h.2.2.2⟩
+
+/-- **capstone, `main.py:QRCode.make_image` (draw loop, class flags of `PilImage`) + `image/pil.py:PilImage.drawrect` +
+    `image/base.py:BaseImage.pixel_box` / `pixel_size`** (all translated).  Partly translated chain: Pillow's
+    `ImageDraw.rectangle` is NOT Python source of the library; it is the explicit `Model.drawBox` (assumption A-PIL: fills exactly
+    the closed box), folded over the rectangle calls the translated code makes on a `pixel_size` square background canvas.
+    The resulting raster is `pixel_size × pixel_size` and pixel (x, y) has the fill colour iff `Spec.rasterDark` - pixel-exact,
+    whatever `drawrect_context` / `process` are (never called for `PilImage`).  From `C12_source_pilRaster_src`,
+    `C12_source_pixelSize_src`, `C12_pil`. -/
+theorem C12_source_capstone_pil_raster (M : Mods) (n border box : Nat) (hlen : M.length = n)
+    (hrow : ∀ row ∈ M, row.length = n) (hb : 1 ≤ box)
+    (ctx : Nat → Nat → List (rd_Box × Unit) → List (rd_Box × Unit)) (process : List (rd_Box × Unit) → List (rd_Box × Unit)) :
+    let R := ((makeImageDraw "PilImage" n M ctx (rd_pil_drawrect border box ()) process []).map (·.1)).foldl drawBox
+          (Array.replicate (pixel_size border n box) (Array.replicate (pixel_size border n box) false))
+    R.size = pixel_size border n box ∧ (∀ row ∈ R, row.size = pixel_size border n box) ∧
+    ∀ x y, x < pixel_size border n box → y < pixel_size border n box →
+      (R.getD y #[]).getD x false = Spec.rasterDark M n border box x y := by
+  have h := C12_pil M n border box hlen hrow hb
+  rw [C12_source_pilRaster_src M n border box ctx process, C12_source_pixelSize_src] at h
+  exact h
+
+/-- **capstone, `image/base.py:BaseImage.pixel_box`** (translated `Gen.Code.pixel_box`): the closed box of exactly the pixels whose
+    module coordinates are `(row + border, col + border)`.  From `C12_source_pixel_box`, `C12_pixel_box`. -/
+theorem C12_source_capstone_pixel_box (border box row col x y : Nat) (hb : 1 ≤ box) :
+    let ((x0, y0), (x1, y1)) := Gen.Code.pixel_box border box row col
+    (x0 ≤ x ∧ x ≤ x1 ∧ y0 ≤ y ∧ y ≤ y1) ↔ (x / box = col + border ∧ y / box = row + border) := by
+  rw [C12_source_pixel_box]; exact C12_pixel_box border box row col x y hb
+
+/-- the translated row iterator evaluated on a 2 x 2 symbol, border 1, box 2 (8 x 8 pixels), with two Spec pixels -/
+example : let M : Mods := [[true, false], [false, true]]
+    pypng_rows M 2 1 2 =
+      [[1,1,1,1,1,1,1,1], [1,1,1,1,1,1,1,1],
+       [1,1,0,0,1,1,1,1], [1,1,0,0,1,1,1,1],
+       [1,1,1,1,0,0,1,1], [1,1,1,1,0,0,1,1],
+       [1,1,1,1,1,1,1,1], [1,1,1,1,1,1,1,1]] ∧ pixel_size 1 2 2 = 8 ∧
+    Spec.rasterDark M 2 1 2 2 3 = true ∧ Spec.rasterDark M 2 1 2 4 3 = false := by decide
+end Capstone
+
 /-- the Python functions this property's model mirrors have, in /repo's current working tree, exactly the normalised
     ASTs the model was written and validated against (fingerprints regenerated by T1 on every run) -/
 theorem C12_source_fingerprints : QR.Gen.fp_C12 = QR.Pinned.fp_C12 := by decide
